@@ -42,6 +42,9 @@ EXPECT = [
     ('AB', 'good_ab_bounded', None, 'ok'),
     ('PX', 'bad_px_unwrap', None, 'violation'),
     ('PX', 'good_px_guarded', None, 'ok'),
+    ('PX', 'bad_px_str_offset', 'str-offset', 'violation'),
+    ('PX', 'good_px_str_offset::{closure#0}', 'str-offset', 'ok'),
+    ('PX', 'good_px_str_offset_direct', 'str-offset', 'ok'),
     ('U8', 'bad_u8_non_utf8', None, 'violation'),
     ('U8', 'bad_u8_dynamic', None, 'violation'),
     ('U8', 'good_u8_ascii', None, 'ok'),
